@@ -7,6 +7,10 @@ use vcore::{
     report::Stats,
 };
 
+// exact live-byte accounting for C18 (a thin wrapper around the system allocator)
+#[global_allocator]
+static ALLOC: checks::c18::Counting = checks::c18::Counting;
+
 fn usage() -> ! {
     eprintln!("usage: vrun <C01..C20> [--tier quick|thorough] [--replay FILE] | vrun pool [name]");
     std::process::exit(2);
@@ -68,6 +72,11 @@ fn main() {
         let from: usize = opt("--from").and_then(|s| s.parse().ok()).unwrap_or(0);
         let to: usize = opt("--to").and_then(|s| s.parse().ok()).unwrap_or(usize::MAX);
         std::process::exit(checks::c15::worker(tier, from, to));
+    }
+    if cmd == "c18-worker" {
+        let from: usize = opt("--from").and_then(|s| s.parse().ok()).unwrap_or(0);
+        let to: usize = opt("--to").and_then(|s| s.parse().ok()).unwrap_or(usize::MAX);
+        std::process::exit(checks::c18::worker(tier, from, to));
     }
     if cmd == "c04-emit" {
         let out = opt("--out").unwrap_or_else(|| usage());
